@@ -104,7 +104,11 @@ impl Controller for StaticResourceController {
     }
 
     fn process(request: &Request, mut response: Response, _connection: &ConnectionInfo) -> Response {
+        #[cfg(rws_verif)]
+        crate::verif_hooks::point("static.process.enter");
         let boxed_content_range_list = StaticResourceController::process_static_resources(&request);
+        #[cfg(rws_verif)]
+        crate::verif_hooks::point("static.process.after_read");
         if boxed_content_range_list.is_ok() {
             let content_range_list = boxed_content_range_list.unwrap();
 
@@ -204,6 +208,8 @@ impl StaticResourceController {
     }
 
     pub fn process_request(request: &Request, mut response: Response) -> Response {
+        #[cfg(rws_verif)]
+        crate::verif_hooks::point("static.process_request.enter");
         let boxed_content_range_list = StaticResourceController::process_static_resources(&request);
         if boxed_content_range_list.is_ok() {
             let content_range_list = boxed_content_range_list.unwrap();
